@@ -127,9 +127,10 @@ static bool bruteInside(const gm::Mesh& m, const Vec3& p, bool& ambiguous) {
     return votes == 3;
 }
 static void caseMesh(const std::string& cls, const std::vector<double>& vin) {
-    int kind = (int)vin[0]; uint64_t mseed = (uint64_t)vin[1]; int sub = (int)vin[2], nq = (int)vin[3];
+    int kind = (int)vin[0]; uint64_t mseed = (uint64_t)vin[1]; int sub = (int)vin[2] % 10, nq = (int)vin[3];
+    const bool smooth = ((int)vin[2] / 10) == 1;            // third parameter = subdivision + 10*smooth
     gm::Mesh m0 = gm::makeMesh(kind, mseed, sub);
-    TM mesh(m0.vertices(), m0.faceIndices(), false);
+    TM mesh(m0.vertices(), m0.faceIndices(), smooth);
     // the library may re-orient the faces: work with its own vertex order
     gm::Mesh m; for (int i = 0; i < mesh.getNumVertices(); ++i) m.V.push_back(mesh.getVertexPosition(i));
     for (int f = 0; f < mesh.getNumFaces(); ++f) m.F.push_back({mesh.getFaceVertex(f, 0), mesh.getFaceVertex(f, 1), mesh.getFaceVertex(f, 2)});
@@ -139,11 +140,11 @@ static void caseMesh(const std::string& cls, const std::vector<double>& vin) {
     exportTree(mesh.getOBBTreeNode(), v);
     emitI("mesh.q", cls, v);
     double L = 0; for (auto& p : m.V) L = std::max(L, p.norm());
-    struct Q { Vec3 np; bool inside; int face; Vec2 uv; double d2; bool hit; double dist; int rface; };
+    struct Q { Vec3 np; bool inside; int face; Vec2 uv; double d2; bool hit; double dist; int rface; Vec2 ruv; };
     std::vector<Q> res(nq);
     for (int q = 0; q < nq; ++q) {
         Vec3 p = V(v, 4 + 9*q), o = V(v, 7 + 9*q); UnitVec3 d(V(v, 10 + 9*q), true);
-        Q& r = res[q]; r.face = -1; r.rface = -1; r.dist = NaN; Vec2 ruv;
+        Q& r = res[q]; r.face = -1; r.rface = -1; r.dist = NaN; Vec2& ruv = r.ruv; ruv = Vec2(NaN);
         r.np = mesh.findNearestPoint(p, r.inside, r.face, r.uv); r.d2 = (r.np - p).normSqr();
         r.hit = mesh.intersectsRay(o, d, r.dist, r.rface, ruv);
         vh::O("mesh.nearest").d(r.d2).d(r.np[0]).d(r.np[1]).d(r.np[2]).emit();
@@ -151,6 +152,24 @@ static void caseMesh(const std::string& cls, const std::vector<double>& vin) {
     }
     vh::D(std::string("mesh.q.") + cls + ".kind" + std::to_string(kind) + ".faces" + std::to_string((int)m.F.size()));
     static const char* KN = "TriangleMesh";
+    vh::D(std::string("mesh.q.") + cls + (smooth ? ".smooth" : ".flat"));
+    // reference for findNormalAtPoint: flat = face normal; smooth = "normal vectors smoothly interpolated between vertices"
+    // (ContactGeometry.h): one normal per vertex (read back through the corners uv = (1,0), (0,1), (0,0), which must agree
+    // between the faces sharing the vertex) interpolated with the same weights as findPoint(face, uv).  How a vertex normal
+    // is weighted from the incident faces is not documented and is not part of the predicate.
+    std::vector<Vec3> fN(m.F.size()), vN(m.V.size(), Vec3(NaN)), wInt(m.V.size(), Vec3(0)), wExt(m.V.size(), Vec3(0)); double vIncons = 0;
+    for (size_t f = 0; f < m.F.size(); ++f) { Vec3 c = (m.V[m.F[f][1]] - m.V[m.F[f][0]]) % (m.V[m.F[f][2]] - m.V[m.F[f][0]]); fN[f] = c / c.norm();
+        static const Vec2 corner[3] = {Vec2(1, 0), Vec2(0, 1), Vec2(0, 0)};
+        for (int j = 0; j < 3; ++j) { Vec3 nj = Vec3(mesh.findNormalAtPoint((int)f, corner[j])); Vec3& slot = vN[m.F[f][j]];
+            if (slot[0] == slot[0]) vIncons = std::max(vIncons, (slot - nj).norm()); else slot = nj;
+            Vec3 a = m.V[m.F[f][(j+1)%3]] - m.V[m.F[f][j]], b = m.V[m.F[f][(j+2)%3]] - m.V[m.F[f][j]]; double th = std::atan2((a % b).norm(), ~a * b);
+            wInt[m.F[f][j]] += fN[f] * th; wExt[m.F[f][j]] += fN[f] * (PI - th); } }
+    if (smooth) { vh::P("vertex_normal_one_per_vertex", std::string(KN) + ".findNormalAtPoint." + cls + ".corner_normals_agree_across_faces", vIncons, 1e-12);
+        double dInt = 0, dExt = 0; for (size_t i = 0; i < m.V.size(); ++i) { dInt = std::max(dInt, (vN[i] - wInt[i] / wInt[i].norm()).norm()); dExt = std::max(dExt, (vN[i] - wExt[i] / wExt[i].norm()).norm()); }
+        if (dExt < 1e-10 && dInt > 1e-6) vh::D("observation.TriangleMesh.vertex_normals_weighted_by_exterior_angle"); }
+    auto refNormal = [&](int f, const Vec2& uv) { if (!smooth) return fN[f];
+        Vec3 n = uv[0] * vN[m.F[f][0]] + uv[1] * vN[m.F[f][1]] + (1 - uv[0] - uv[1]) * vN[m.F[f][2]]; return Vec3(n / n.norm()); };
+    const std::string sm = smooth ? ".smooth" : ".flat";
     for (int q = 0; q < nq; ++q) {
         Vec3 p = V(v, 4 + 9*q), o = V(v, 7 + 9*q), d = V(v, 10 + 9*q); const Q& r = res[q];
         // input class: does any face fall into the region-6 class for this query?
@@ -167,6 +186,12 @@ static void caseMesh(const std::string& cls, const std::vector<double>& vin) {
         // inside flag = ray parity (skipped when the parity test is ambiguous or the point is within 1e-6 of the surface)
         bool amb; bool refIn = bruteInside(m, p, amb);
         if (!amb && best > 1e-12 * L * L) vh::P("inside_eq_parity", std::string(KN) + ".findNearestPoint." + kc + ".inside", r.inside == refIn ? 0 : 1, 0);
+        vh::D(std::string("mesh.q.inside_parity.") + (best <= 1e-12 * L * L ? "skipped_on_surface" : amb ? "skipped_ambiguous" : refIn ? "checked_inside" : "checked_outside"));
+        // the (inside, normal) overloads: same point / flag / distance as the (face, uv) overloads, normal = findNormalAtPoint
+        { bool in2 = !r.inside; UnitVec3 n2; Vec3 np2 = mesh.findNearestPoint(p, in2, n2);
+          vh::P("normal_overload_same_point", std::string(KN) + ".findNearestPoint." + kc + ".normal_overload_point", (np2 - r.np).norm() / L + (in2 == r.inside ? 0 : 1), 0);
+          if (faceOk) { vh::P("normal_at_point", std::string(KN) + ".findNormalAtPoint." + cls + sm, (Vec3(mesh.findNormalAtPoint(r.face, r.uv)) - refNormal(r.face, r.uv)).norm(), 1e-12);
+                        vh::P("nearest_normal", std::string(KN) + ".findNearestPoint." + kc + ".normal" + sm, (Vec3(n2) - refNormal(r.face, r.uv)).norm(), 1e-12); } }
         // ray = brute force
         double tb = INFINITY, margin = INFINITY; int nh = 0;
         for (auto& f : m.F) { double t = gm::rayTri(o, d, m.V[f[0]], m.V[f[1]], m.V[f[2]]); double mg = gm::rayTriMargin(o, d, m.V[f[0]], m.V[f[1]], m.V[f[2]]); margin = std::min(margin, mg); if (t >= 0) { ++nh; tb = std::min(tb, t); } }
@@ -174,6 +199,10 @@ static void caseMesh(const std::string& cls, const std::vector<double>& vin) {
             vh::P("ray_hit_eq_bruteforce", std::string(KN) + ".intersectsRay." + cls + ".hit", r.hit == (nh > 0) ? 0 : 1, 0);
             if (r.hit && nh > 0) vh::P("ray_dist_eq_bruteforce", std::string(KN) + ".intersectsRay." + cls + ".distance", std::abs(r.dist - tb) / L, 1e-10);
         }
+        else vh::D("mesh.q.ray.skipped_near_edge");
+        { Real d2 = NaN; UnitVec3 n2; bool hit2 = mesh.intersectsRay(o, UnitVec3(d, true), d2, n2);
+          vh::P("ray_normal_overload_same_hit", std::string(KN) + ".intersectsRay." + cls + ".normal_overload_hit", (hit2 == r.hit ? 0 : 1) + (hit2 && r.hit ? std::abs(d2 - r.dist) / L : 0), 0);
+          if (hit2 && r.hit && r.rface >= 0 && r.rface < mesh.getNumFaces()) vh::P("ray_normal", std::string(KN) + ".intersectsRay." + cls + ".normal" + sm, (Vec3(n2) - refNormal(r.rface, res[q].ruv)).norm(), 1e-12); }
     }
     // tree invariants
     std::vector<int> all; int notContained = 0, countMismatch = 0; checkTree(mesh, mesh.getOBBTreeNode(), all, notContained, countMismatch, 1e-12 * L);
@@ -236,6 +265,111 @@ static void caseTopo(const std::string& cls, const std::vector<double>& vin) {
     vh::P("vertices_preserved", "TriangleMesh.construction." + cls + ".vertices", dv, 0);
 }
 
+
+// ---- syntax variants of the three file formats (review E M3): each variant is a fixed way of writing the same mesh; the
+// loaded mesh must have the vertices and faces written.  Keys PolygonalMesh.load<Fmt>.<cls>.<variant>.{...}
+static void caseFileVariants(const std::string& cls, int kind, uint64_t mseed, int sub) {
+    gm::Mesh m = gm::makeMesh(kind, mseed, sub);
+    std::vector<Vec3> Vs = m.V; std::vector<std::vector<int> > Fs; for (auto& f : m.F) Fs.push_back({f[0], f[1], f[2]});
+    // a closed pentagonal prism: 2 pentagons (fan with a centre vertex in TriangleMesh) + 5 quads
+    std::vector<Vec3> Pv; std::vector<std::vector<int> > Pf; vh::Rng g(mseed + 7);
+    const double h = g.range(0.5, 1.5), rr = g.range(0.5, 1.5);
+    for (int i = 0; i < 5; ++i) Pv.push_back(Vec3(rr * std::cos(2*PI*i/5), rr * std::sin(2*PI*i/5), 0));
+    for (int i = 0; i < 5; ++i) Pv.push_back(Vec3(rr * std::cos(2*PI*i/5), rr * std::sin(2*PI*i/5), h));
+    Pf.push_back({4, 3, 2, 1, 0}); Pf.push_back({5, 6, 7, 8, 9});
+    for (int i = 0; i < 5; ++i) Pf.push_back({i, (i + 1) % 5, 5 + (i + 1) % 5, 5 + i});
+    mkdir(SCRATCH, 0755);
+    const std::string base = std::string(SCRATCH) + "/v" + std::to_string((unsigned long long)mseed) + "_" + std::to_string(kind);
+    auto check = [&](const std::string& fmt, const std::string& var, const std::string& path, const std::vector<Vec3>& V0, const std::vector<std::vector<int> >& F0, double tolv, bool indexed) {
+        const std::string K = "PolygonalMesh.load" + fmt + "." + cls + "." + var;
+        vh::D("p.mesh.file." + cls + "." + fmt + "." + var);
+        try {
+            PolygonalMesh pm; pm.loadFile(path);
+            vh::P("no_exception", K + ".exception", 0, 0);
+            vh::P("num_faces", K + ".num_faces", std::abs(pm.getNumFaces() - (int)F0.size()), 0);
+            if (indexed) vh::P("num_vertices", K + ".num_vertices", std::abs(pm.getNumVertices() - (int)V0.size()), 0);
+            double worst = 0; int badTopo = 0;
+            if (pm.getNumFaces() == (int)F0.size())
+                for (int f = 0; f < pm.getNumFaces(); ++f) {
+                    if (pm.getNumVerticesForFace(f) != (int)F0[f].size()) { ++badTopo; continue; }
+                    for (int k = 0; k < (int)F0[f].size(); ++k) { int vi = pm.getFaceVertex(f, k);
+                        if (vi < 0 || vi >= pm.getNumVertices()) { ++badTopo; continue; }
+                        if (indexed && vi != F0[f][k]) ++badTopo; worst = std::max(worst, (pm.getVertexPosition(vi) - V0[F0[f][k]]).norm()); }
+                }
+            vh::P("faces_preserved", K + ".faces", badTopo, 0);
+            vh::P("vertices_preserved", K + ".vertices", worst, tolv);
+        } catch (const std::exception& e) {
+            vh::P("no_exception", K + ".exception", 1, 0);
+        }
+        std::remove(path.c_str());
+    };
+    auto vline = [](std::ostream& o, const Vec3& p) { o << "v " << p[0] << " " << p[1] << " " << p[2] << "\n"; };
+    // ---- OBJ
+    { std::string f = base + "_a.obj"; { std::ofstream o(f); o.precision(17);          // f i/j/k with vt and vn records
+        for (auto& p : Vs) vline(o, p); for (auto& p : Vs) o << "vt " << 0.5 + 0.1 * p[0] << " " << 0.5 + 0.1 * p[1] << "\n";
+        for (auto& p : Vs) { Vec3 n = p / p.norm(); o << "vn " << n[0] << " " << n[1] << " " << n[2] << "\n"; }
+        for (auto& fc : Fs) { o << "f"; for (int i : fc) o << " " << i + 1 << "/" << i + 1 << "/" << i + 1; o << "\n"; } }
+      check("Obj", "v_vt_vn", f, Vs, Fs, 1e-15, true); }
+    { std::string f = base + "_b.obj"; { std::ofstream o(f); o.precision(17);          // f i//k (no texture index)
+        for (auto& p : Vs) vline(o, p); for (auto& p : Vs) { Vec3 n = p / p.norm(); o << "vn " << n[0] << " " << n[1] << " " << n[2] << "\n"; }
+        for (auto& fc : Fs) { o << "f"; for (int i : fc) o << " " << i + 1 << "//" << i + 1; o << "\n"; } }
+      check("Obj", "v_slash_slash_vn", f, Vs, Fs, 1e-15, true); }
+    { std::string f = base + "_c.obj"; { std::ofstream o(f); o.precision(17);          // f i/j (texture only)
+        for (auto& p : Vs) vline(o, p); for (auto& p : Vs) o << "vt " << 0.5 + 0.1 * p[0] << " " << 0.5 + 0.1 * p[1] << "\n";
+        for (auto& fc : Fs) { o << "f"; for (int i : fc) o << " " << i + 1 << "/" << i + 1; o << "\n"; } }
+      check("Obj", "v_vt", f, Vs, Fs, 1e-15, true); }
+    { std::string f = base + "_d.obj"; { std::ofstream o(f); o.precision(17);          // negative (relative) indices
+        for (auto& p : Vs) vline(o, p);
+        for (auto& fc : Fs) { o << "f"; for (int i : fc) o << " " << i - (int)Vs.size(); o << "\n"; } }
+      check("Obj", "negative_indices", f, Vs, Fs, 1e-15, true); }
+    { std::string f = base + "_e.obj"; { std::ofstream o(f); o.precision(17);          // comments, blank lines, groups, leading blanks, continuation
+        o << "# a comment\n\nmtllib none.mtl\no body\n"; int c = 0;
+        for (auto& p : Vs) { if (++c % 3 == 0) o << "\n# c" << c << "\n"; o << (c % 2 ? "  " : "\t"); vline(o, p); }
+        o << "g part1\nusemtl m\ns off\n";
+        for (auto& fc : Fs) { if (++c % 4 == 0) o << "   \n"; o << "f " << fc[0] + 1 << " \\\n" << fc[1] + 1 << " " << fc[2] + 1 << "\n"; } o << "# end"; }
+      check("Obj", "comments_blank_continuation", f, Vs, Fs, 1e-15, true); }
+    { std::string f = base + "_f.obj"; { std::ofstream o(f); o.precision(17);          // polygons with more than four vertices
+        for (auto& p : Pv) vline(o, p); for (auto& fc : Pf) { o << "f"; for (int i : fc) o << " " << i + 1; o << "\n"; } }
+      // the contact mesh made from it: pentagon -> 5 triangles round a new centre vertex, quad -> 2 triangles
+      try { PolygonalMesh pm; pm.loadFile(f); TM t(pm);
+            const std::string K = "TriangleMesh.fromPolygonalMesh." + cls + ".pentagonal_prism";
+            vh::P("triangulation_faces", K + ".num_faces", std::abs(t.getNumFaces() - 20), 0);
+            vh::P("triangulation_vertices", K + ".num_vertices", std::abs(t.getNumVertices() - 12), 0);
+            double area = 0, vol = 0; for (int i = 0; i < t.getNumFaces(); ++i) { area += t.getFaceArea(i);
+                vol += ~t.getVertexPosition(t.getFaceVertex(i, 0)) * (t.getVertexPosition(t.getFaceVertex(i, 1)) % t.getVertexPosition(t.getFaceVertex(i, 2))) / 6; }
+            const double pent = 2.5 * rr * rr * std::sin(2*PI/5), side = 2 * rr * std::sin(PI/5);
+            vh::P("triangulation_area", K + ".area", std::abs(area - (2 * pent + 5 * side * h)) / (2 * pent + 5 * side * h), 1e-13);
+            vh::P("triangulation_volume", K + ".volume", std::abs(vol - pent * h) / (pent * h), 1e-13);
+      } catch (const std::exception& e) { vh::P("no_exception", "TriangleMesh.fromPolygonalMesh." + cls + ".pentagonal_prism.exception", 1, 0); }
+      check("Obj", "pentagons", f, Pv, Pf, 1e-15, true); }
+    // ---- VTP
+    auto vtp = [&](const std::string& path, const char* ftype, const char* itype, bool offsetsFirst, bool pointData, const std::vector<Vec3>& V0, const std::vector<std::vector<int> >& F0) {
+        std::ofstream o(path); o.precision(ftype[5] == '3' ? 9 : 17);
+        o << "<?xml version=\"1.0\"?>\n<!-- variant -->\n<VTKFile type=\"PolyData\" version=\"0.1\" byte_order=\"LittleEndian\">\n  <PolyData>\n    <Piece NumberOfPoints=\"" << V0.size() << "\" NumberOfVerts=\"0\" NumberOfLines=\"0\" NumberOfStrips=\"0\" NumberOfPolys=\"" << F0.size() << "\">\n";
+        if (pointData) { o << "<PointData Scalars=\"T\">\n<DataArray type=\"Float32\" Name=\"T\" format=\"ascii\">\n"; for (size_t i = 0; i < V0.size(); ++i) o << (i % 7) << " "; o << "\n</DataArray>\n</PointData>\n<CellData>\n</CellData>\n"; }
+        o << "<Points>\n<DataArray type=\"" << ftype << "\" NumberOfComponents=\"3\" format=\"ascii\">\n"; int c = 0; for (auto& p : V0) o << (float)0 * 0 + p[0] << " " << p[1] << "\t" << p[2] << ((++c % 2) ? "   " : "\n"); o << "\n</DataArray>\n</Points>\n";
+        o << "<Verts>\n</Verts>\n<Polys>\n";
+        auto conn = [&]() { o << "<DataArray type=\"" << itype << "\" Name=\"connectivity\" format=\"ascii\">\n"; for (auto& f : F0) { for (int i : f) o << i << " "; } o << "\n</DataArray>\n"; };
+        auto offs = [&]() { o << "<DataArray type=\"" << itype << "\" Name=\"offsets\" format=\"ascii\">\n"; int off = 0; for (auto& f : F0) { off += (int)f.size(); o << off << "\n"; } o << "</DataArray>\n"; };
+        if (offsetsFirst) { offs(); conn(); } else { conn(); offs(); }
+        o << "</Polys>\n</Piece>\n</PolyData>\n</VTKFile>\n"; };
+    { std::string f = base + "_a.vtp"; std::vector<Vec3> Vf; for (auto& p : Vs) Vf.push_back(Vec3((float)p[0], (float)p[1], (float)p[2]));
+      vtp(f, "Float32", "Int64", false, false, Vf, Fs); check("Vtp", "float32_int64", f, Vf, Fs, 1e-8, true); /* 9 significant digits written */ }
+    { std::string f = base + "_b.vtp"; vtp(f, "Float64", "Int32", true, true, Pv, Pf); check("Vtp", "offsets_first_pointdata_polygons", f, Pv, Pf, 1e-15, true); }
+    // ---- STL (ascii)
+    auto stl = [&](const std::string& path, int style) {
+        std::ofstream o(path); o.precision(9);
+        o << (style == 1 ? "SOLID  a name with   spaces and facet words\n\n# comment\n! comment\n" : style == 2 ? "solid\n" : "solid first\n");
+        for (auto& f : Fs) { o << (style == 1 ? "FACET NORMAL 0 0 1\n\tOUTER LOOP\n" : style == 2 ? "facetnormal 0 0 1\nouterloop\n" : " facet normal 1 0 0\n  outer loop\n");
+            for (int i : f) o << (style == 1 ? "\t\tVERTEX " : "   vertex ") << Vs[i][0] << " " << Vs[i][1] << "  " << Vs[i][2] << "\n";
+            o << (style == 1 ? "\tENDLOOP\nENDFACET\n\n" : "  endloop\n endfacet\n"); }
+        o << (style == 1 ? "ENDSOLID  a name with   spaces and facet words\n" : style == 2 ? "endsolid\n" : "endsolid first\n");
+        if (style == 3) o << "solid second\n facet normal 0 0 1\n  outer loop\n   vertex 0 0 0\n   vertex 1 0 0\n   vertex 0 1 0\n  endloop\n endfacet\nendsolid second\n"; };
+    { std::string f = base + "_a.stl"; stl(f, 1); check("StlAscii", "uppercase_name_with_spaces", f, Vs, Fs, 1e-7, false); }
+    { std::string f = base + "_b.stla"; stl(f, 2); check("StlAscii", "joined_keywords_no_name_stla", f, Vs, Fs, 1e-7, false); }
+    { std::string f = base + "_c.stl"; stl(f, 3); check("StlAscii", "two_solids_first_only", f, Vs, Fs, 1e-7, false); }
+}
+
 // ---- file round trips: the harness writes, PolygonalMesh::loadFile reads
 static void caseFile(const std::string& cls, const std::vector<double>& vin) {
     int kind = (int)vin[0]; uint64_t mseed = (uint64_t)vin[1]; int sub = (int)vin[2], shape = (int)vin[3];
@@ -245,6 +379,7 @@ static void caseFile(const std::string& cls, const std::vector<double>& vin) {
     if (shape == 0) { gm::Mesh m = gm::makeMesh(kind, mseed, sub); Vs = m.V; for (auto& f : m.F) Fs.push_back({f[0], f[1], f[2]}); }
     else { vh::Rng g(mseed + 99); int n = 3 + sub * 2; for (int i = 0; i <= n; ++i) { Vs.push_back(Vec3(i * 0.5, 0, g.range(-0.2, 0.2))); Vs.push_back(Vec3(i * 0.5, 1 + g.range(0, 0.3), g.range(-0.2, 0.2))); }
            for (int i = 0; i < n; ++i) Fs.push_back({2*i, 2*i + 2, 2*i + 3, 2*i + 1}); }
+    if (shape == 2) { caseFileVariants(cls, kind, mseed, sub); return; }
     vh::D("p.mesh.file." + cls + (shape ? ".open_quads" : ".closed_tris"));
     mkdir(SCRATCH, 0755);
     std::string base = std::string(SCRATCH) + "/m" + std::to_string((unsigned long long)mseed) + "_" + std::to_string(kind) + "_" + std::to_string(shape);
@@ -325,7 +460,7 @@ static void generic(vh::Rng& g, long n) {
         case 3: genPoints(g, "generic", 0); break;
         case 4: { std::vector<double> v; push3(v, rndVec(g, 0.1, 3)); push3(v, rndVec(g, 0.1, 3)); caseSph(2, "generic", v); break; }
         case 5: { std::vector<double> v; Vec3 a = rndVec(g, 0.1, 3); push3(v, a); push3(v, a + rndVec(g, 0.1, 2)); push3(v, a + rndVec(g, 0.1, 2)); caseSph(3, "generic", v); break; }
-        case 6: case 7: caseMesh("generic", meshRecord(g, g.below(4), 1 + g.below(2), 6)); break;
+        case 6: case 7: { std::vector<double> r = meshRecord(g, g.below(4), 1 + g.below(2), 6); if (g.coin()) r[2] += 10; caseMesh("generic", r); break; }   // +10: smooth = true
         case 8: caseTopo("generic", {(double)g.below(4), (double)(g.next() % 100000), (double)(1 + g.below(2))}); break;
         case 9: caseFile("generic", {(double)g.below(4), (double)(g.next() % 100000), (double)(1 + g.below(2)), (double)g.below(2)}); break;
         }
@@ -347,6 +482,8 @@ static void degenerate(vh::Rng& g, long n) {
           push3(v, 0.5 * (m.V[0] + m.V[3])); push3(v, Vec3(5, 0.01, 0.02)); push3(v, Vec3(-1, 0, 0));
           push3(v, 2 * m.V[1]); push3(v, Vec3(0, 0, 9)); push3(v, Vec3(0, 0, -1));
           caseMesh("box_special_points", v); }
+        // file syntax variants (shape 2)
+        caseFile("syntax_variants", {(double)g.below(4), (double)(g.next() % 100000), 1, 2});
     }
     // regression witness of finding F12 (point-triangle region 6; fixed in /repo by b3f19b8d): deterministic search over
     // a fixed family of meshes for the first query that falls into the input class, which is then replayed
